@@ -88,6 +88,7 @@ func (vals *ValidatorSet) ValidateBasic() error {
 	// contains a validator twice, but one decoded from the wire may: every
 	// entry would be counted as a member of its own when commits are verified.
 	seen := make(map[string]int, len(vals.Validators))
+	seenKeys := make(map[string]int, len(vals.Validators))
 	for idx, val := range vals.Validators {
 		if err := val.ValidateBasic(); err != nil {
 			return fmt.Errorf("invalid validator #%d: %w", idx, err)
@@ -96,6 +97,13 @@ func (vals *ValidatorSet) ValidateBasic() error {
 			return fmt.Errorf("validator %X is listed twice (#%d and #%d)", val.Address, first, idx)
 		}
 		seen[string(val.Address)] = idx
+		// signatures are verified with the public key: the same key under two
+		// addresses is the same validator listed twice
+		pk := string(val.PubKey.Bytes())
+		if first, ok := seenKeys[pk]; ok {
+			return fmt.Errorf("public key of validator %X is listed twice (#%d and #%d)", val.Address, first, idx)
+		}
+		seenKeys[pk] = idx
 	}
 
 	if err := vals.Proposer.ValidateBasic(); err != nil {
